@@ -53,6 +53,77 @@ def call_work(inp):
     return out
 
 
+def helper_work(inp):
+    """direct calls of elect_cands_from_set_ranking / tiebroken_ranking on an arbitrary ranking of sets: every outcome of the random
+    resolution is enumerated (scripted source), each one is a trace"""
+    from .. import elections as E
+    from .. import rng
+    from ..rng import EX, TooManyPaths
+    from votekit import utils as U
+    E.fast_df(True)
+    rng.install()
+    prof = E.build_profile(inp["cands"], inp["ballots"])
+    bag = E._abstract_bag(inp["ballots"])
+    rk = tuple(frozenset(s) for s in inp["ranking"])
+    tb = inp["tb"]
+    base = {"op": inp["op"], "cands": sorted(inp["cands"]), "bag": bag, "ranking": inp["ranking"], "m": inp.get("m", 0), "tb": tb, "error": "",
+            "elected": [], "remaining": [], "tied": [], "order": [], "result": [], "dict": [], "vec": [], "scores": [], "high": True}
+    gs = lambda r: [sorted(s) for s in r]       # noqa
+
+    def call():
+        try:
+            with quiet():
+                if inp["op"] == "elect":
+                    el, rem, tbk = U.elect_cands_from_set_ranking(rk, inp["m"], prof if inp["with_profile"] else None, None if tb == "none" else tb)
+                    return json.dumps({"elected": gs(el), "remaining": gs(rem), "tied": sorted(tbk[0]) if tbk else [], "order": gs(tbk[1]) if tbk else []})
+                res, d = U.tiebroken_ranking(rk, prof if inp["with_profile"] else None, tb)
+                return json.dumps({"result": gs(res), "dict": sorted(({"tied": sorted(k), "order": gs(v)} for k, v in d.items()), key=lambda x: x["tied"])})
+        except Exception as ex:  # noqa
+            return json.dumps({"error": type(ex).__name__})
+    outs = set()
+    try:
+        for r, pr, log in EX.runs(call, max_paths=300):
+            outs.add(r)
+    except (TooManyPaths, rng.ReplayDiverged):
+        rng.seed_real(inp.get("seed", 0))
+        outs = {call()}
+    res = []
+    for o in sorted(outs):
+        t = dict(base)
+        t.update(json.loads(o))
+        t["_inp"] = inp
+        res.append(t)
+    return res
+
+
+def helper_corpus(tier, seed):
+    rng = random.Random(460 + seed)
+    q = tier == "quick"
+    inputs = []
+    for _ in range(400 if q else 8000):
+        nc = rng.randint(2, 6)
+        cands = D.ABC[:nc]
+        order = rng.sample(cands, nc)
+        ranking, i = [], 0
+        while i < nc:
+            k = rng.choice([1, 1, 2, 2, 3])
+            ranking.append(sorted(order[i:i + k]))
+            i += k
+        style = rng.random()
+        if style < 0.4 and nc >= 4:
+            ballots = D.partial_tie_bag(rng, cands, 2)
+        else:
+            ballots = D.random_bag(rng, cands, 4, tied=rng.random() < 0.3, rational=0.2, wmax=2, min_ballots=0 if style > 0.9 else 1)
+        tb = rng.choice(["random", "borda", "first_place"])
+        if rng.random() < 0.6:
+            inputs.append({"op": "elect", "cands": cands, "ballots": ballots, "ranking": ranking, "m": rng.choice(list(range(1, nc + 1)) + [0, nc + 1]),
+                           "tb": rng.choice([tb, tb, "none"]), "with_profile": tb != "random" or rng.random() < 0.5, "seed": rng.randrange(10**6)})
+        else:
+            inputs.append({"op": "tiebroken", "cands": cands, "ballots": ballots, "ranking": ranking, "tb": tb,
+                           "with_profile": tb != "random" or rng.random() < 0.5, "seed": rng.randrange(10**6)})
+    return inputs
+
+
 def call_corpus(tier, seed):
     rng = random.Random(400 + seed)
     q = tier == "quick"
@@ -238,8 +309,14 @@ def run(tier, seed, replay=None):
     res.evaluations = len(calls) + len(elects)
     with mp.get_context("fork").Pool(16) as pool:
         traces = [t for ts in pool.imap_unordered(call_work, calls, chunksize=16) for t in ts]
+    if not replay or "ranking" in rp:
+        with mp.get_context("fork").Pool(16) as pool:
+            traces += [t for ts in pool.imap_unordered(helper_work, helper_corpus(tier, seed) if not replay else [rp], chunksize=16) for t in ts]
     traces.sort(key=lambda t: json.dumps({k: v for k, v in t.items() if not k.startswith("_")}, sort_keys=True))
     for t in traces:
+        if t["op"] in ("elect", "tiebroken"):
+            res.nontrivial.add(json.dumps([t["op"], t["bag"], t["ranking"], t.get("m"), t["tb"]]))
+            continue
         if any(len(pos) > 1 for b in t["bag"] for pos in b["r"]) or any(sum(len(p) for p in b["r"]) < len(t["cands"]) for b in t["bag"]):
             res.nontrivial.add(json.dumps([t["op"], t["bag"], t["vec"]]))
     judge_calls(res, PID, "ScoringTrace", traces, what="scoring call disagrees with the definition")
